@@ -82,11 +82,12 @@ structure St where
   chans : List Chan
   dirs : List Run
   files : Files
+  nums : List Int        -- chanNumbers: the channel number of each channel (fixed once the source runs)
 deriving Repr, DecidableEq
 
-def St.init (proj : List Bool) (pre : List Run) : St :=
+def St.init (proj : List Bool) (pre : List Run) (nums : List Int) : St :=
   { ws := { active := false, paused := false, base := none, pat := none, l22 := false, off := false, l3 := false },
-    chans := proj.map Chan.new, dirs := pre, files := [] }
+    chans := proj.map Chan.new, dirs := pre, files := [], nums }
 
 /-! ### Request strings -/
 
@@ -186,7 +187,8 @@ def setProj : List Chan → Nat → List Chan
 /-! ### Operations -/
 
 inductive Op where
-  | req (r : List Nat) (path : Option Nat) (l22 off l3 : Bool)
+  | req (r : List Nat) (path : Option Nat) (l22 off l3 : Bool) (map : Option Nat)
+      -- `map`: number of pixels of the map the server holds when the request arrives (`none`: no map)
   | pub (counts : List Nat)
   | proj (ch : Nat)
 deriving Repr, DecidableEq
@@ -200,12 +202,19 @@ def pathOr (path base : Option Nat) : Option Nat :=
   | some p => some p
   | none => base
 
+/-- the pixel-map validation of `writeControlStart` (channelsPerPixel = 1): the map has one pixel per
+channel and every channel number `n` has its pixel `Pixels[n-1]` -/
+def mapOk (s : St) : Option Nat → Bool
+  | none => true
+  | some npix => npix == s.chans.length && s.nums.all fun n => 1 ≤ n && n ≤ npix
+
 /-- the checks of `writeControlStart` and `makeDirectory`: the run directory an accepted START
-creates, `none` when the request is refused -/
-def startTarget (s : St) (path : Option Nat) (l22 off l3 : Bool) : Option Run :=
+creates, `none` when the request is refused.  Every check comes before the first change. -/
+def startTarget (s : St) (path : Option Nat) (l22 off l3 : Bool) (map : Option Nat) : Option Run :=
   if !(l22 || off || l3) then none                       -- all three file types false
   else if s.chans.any (·.hasWriter) then none            -- writing already in progress
   else if off && !s.chans.any (·.proj) then none         -- OFF requires projectors on some channel
+  else if !mapOk s map then none                         -- map error (length, or a channel number without pixel)
   else
     match pathOr path s.ws.base with
     | none => none                                       -- BasePath is the empty string
@@ -215,8 +224,8 @@ def startTarget (s : St) (path : Option Nat) (l22 off l3 : Bool) : Option Run :=
       | some i => some ⟨p, i⟩
 
 /-- `writeControlStart`; the Bool is "returned an error" -/
-def startReq (s : St) (path : Option Nat) (l22 off l3 : Bool) : St × Bool :=
-  match startTarget s path l22 off l3 with
+def startReq (s : St) (path : Option Nat) (l22 off l3 : Bool) (map : Option Nat) : St × Bool :=
+  match startTarget s path l22 off l3 map with
   | none => (s, true)
   | some r =>
     ({ s with chans := s.chans.map (·.start r l22 off l3),
@@ -225,7 +234,7 @@ def startReq (s : St) (path : Option Nat) (l22 off l3 : Bool) : St × Bool :=
 
 /-- one step; the Bool is "the request returned an error" -/
 def step (s : St) : Op → St × Bool
-  | .req r path l22 off l3 =>
+  | .req r path l22 off l3 map =>
     match classify r with
     | .pause =>
       ({ s with chans := s.chans.map (·.setPause true), ws := { s.ws with paused := true } }, false)
@@ -234,7 +243,7 @@ def step (s : St) : Op → St × Bool
       else ({ s with chans := s.chans.map (·.setPause false), ws := { s.ws with paused := false } }, false)
     | .unpauseBad => (s, true)
     | .stop => ({ s with chans := s.chans.map (·.removeAll), ws := s.ws.stop }, false)
-    | .start => startReq s path l22 off l3
+    | .start => startReq s path l22 off l3 map
     | .invalid => (s, true)
   | .pub counts =>
     let r := pubAll 0 s.chans counts s.files
@@ -329,7 +338,7 @@ def firstBad (before after : Files) (want : FKey → Nat) : List FKey → Option
 
 def chkStep (o : OSt) (op : Op) (err : Bool) (after : Obs) : Except Bad OSt :=
   match op with
-  | .req r path _ _ _ =>
+  | .req r path _ _ _ _ =>
     if err then
       if after.ws = o.prev.ws ∧ sameFiles o.prev.files after.files then .ok { o with prev := after }
       else .error .rejectedChanged
@@ -362,7 +371,7 @@ def chkRun : OSt → List Op → List (Bool × Obs) → Except Bad OSt
     | .error b => .error b
 
 def OSt.init (proj : List Bool) (pre : List Run) : OSt :=
-  { prev := obs (St.init proj pre), elig := proj.map fun _ => false, proj, dirs := pre }
+  { prev := obs (St.init proj pre []), elig := proj.map fun _ => false, proj, dirs := pre }
 
 /-! ### Driver -/
 
@@ -384,6 +393,7 @@ inductive InOp where
   | b
   | d (ch n : Nat)
   | p (ch : Nat)
+  | m
 
 def optOfInt (i : Int) : Option Nat := if i < 0 then none else some i.toNat
 
@@ -399,6 +409,7 @@ def parseInOp : P InOp := do
   | "B" => do let _ ← nat; pure .b
   | "D" => do let ch ← nat; let n ← nat; pure (.d ch n)
   | "P" => do let ch ← nat; pure (.p ch)
+  | "M" => do let _ ← int; pure .m
   | _ => fail s!"bad op {t}"
 
 /-- what the implementation reported after one op -/
@@ -409,6 +420,7 @@ structure ImplRes where
   nw : List Nat
   fds : Nat
   delta : List (FKey × Nat)
+  map : Option Nat := none     -- Q: pixels of the map the server held when the request arrived
 
 def runOfInts (p r : Int) : Option Run :=
   if p = -1 then none else if p < 0 ∨ r < 0 then some ⟨777777, 777777⟩ else some ⟨p.toNat, r.toNat⟩
@@ -416,12 +428,13 @@ def runOfInts (p r : Int) : Option Run :=
 open P in
 def parseRes (op : InOp) : P ImplRes := do
   let t ← tok
-  let (err, counts) ← (match op, t with
-    | .q .., "E" => do let e ← bool; pure (e, ([] : List Nat))
-    | .p .., "E" => do let e ← bool; pure (e, [])
-    | .b, "R" => do let cs ← list nat; pure (false, cs)
-    | .d ch n, "-" => pure (false, List.replicate ch 0 ++ [n])
-    | _, _ => fail s!"bad result {t}" : P (Bool × List Nat))
+  let (err, counts, map) ← (match op, t with
+    | .q .., "E" => do let e ← bool; let m ← int; pure (e, ([] : List Nat), optOfInt m)
+    | .p .., "E" => do let e ← bool; pure (e, [], none)
+    | .b, "R" => do let cs ← list nat; pure (false, cs, none)
+    | .d ch n, "-" => pure (false, List.replicate ch 0 ++ [n], none)
+    | .m, "-" => pure (false, [], none)
+    | _, _ => fail s!"bad result {t}" : P (Bool × List Nat × Option Nat))
   kw "S"
   let a ← bool; let p ← bool; let l22 ← bool; let off ← bool; let l3 ← bool
   let base ← int; let pp ← int; let pr ← int
@@ -431,7 +444,7 @@ def parseRes (op : InOp) : P ImplRes := do
   let delta ← list (do
     let pid ← nat; let run ← nat; let ch ← nat; let ty ← nat; let n ← nat
     pure ((⟨⟨pid, run⟩, ch, ftOfNat ty⟩ : FKey), n))
-  pure { err, counts, nw, fds, delta,
+  pure { err, counts, nw, fds, delta, map,
          ws := { active := a, paused := p, l22, off, l3,
                  base := if base = -1 then none else if base < 0 then some 777777 else some base.toNat,
                  pat := runOfInts pp pr } }
@@ -440,7 +453,8 @@ def applyDelta (fs : Files) (delta : List (FKey × Nat)) : Files :=
   delta ++ fs.filter fun p => !(delta.any fun d => d.1 == p.1)
 
 def modelOp : InOp → ImplRes → Op
-  | .q r path a b c, _ => .req r path a b c
+  | .q r path a b c, res => .req r path a b c res.map
+  | .m, _ => .pub []                       -- loading / unloading a map: no effect on the writing state
   | .b, res => .pub res.counts
   | .d .., res => .pub res.counts
   | .p ch, _ => .proj ch
@@ -455,10 +469,10 @@ def badMsg (k : Nat) : Bad → String
 
 def opTag (op : Op) (err : Bool) : List String :=
   match op with
-  | .req r _ l22 off l3 =>
+  | .req r _ l22 off l3 map =>
     match classify r, err with
-    | .start, false => ["start-ok"] ++ (if off && !l22 && !l3 then ["start-off-only"] else [])
-    | .start, true => ["start-rejected"]
+    | .start, false => ["start-ok"] ++ (if off && !l22 && !l3 then ["start-off-only"] else []) ++ (if map.isSome then ["start-with-map"] else [])
+    | .start, true => ["start-rejected"] ++ (if map.isSome then ["start-rejected-with-map"] else [])
     | .stop, _ => ["stop"]
     | .pause, _ => ["pause"]
     | .unpause none, _ => ["unpause"]
@@ -488,11 +502,12 @@ def oracleAll (o : OSt) (implFiles : Files) : List (InOp × ImplRes) → Nat →
     | .ok o' => oracleAll o' files' rest (k + 1)
 
 def runLine (ts : List String) : Verdict :=
-  let p : P (List Bool × List Run × List (InOp × ImplRes)) := do
+  let p : P (List Bool × List Run × List Int × List (InOp × ImplRes)) := do
     P.kw "nch"; let nch ← P.nat
     P.kw "npre"; let _ ← P.nat
     P.kw "nsamp"; let _ ← P.nat
     P.kw "proj"; let proj ← P.rep P.bool nch
+    P.kw "nums"; let nums ← P.rep P.int nch
     P.kw "pre"; let pre ← P.list (do let a ← P.nat; let b ← P.nat; pure (⟨a, b⟩ : Run))
     P.kw "ops"; let ops ← P.list parseInOp
     P.kw "OUT"
@@ -504,11 +519,11 @@ def runLine (ts : List String) : Verdict :=
     let n ← P.nat
     if n != ops.length then P.fail "op count mismatch"
     let rs ← parseAll ops
-    pure (proj, pre, rs)
+    pure (proj, pre, nums, rs)
   match P.run p ts with
   | .error e =>
     if e.startsWith "CRASH" then .viol s!"C06:crash the implementation crashed or hung: {e}" else .bad e
-  | .ok (proj, pre, rs) =>
+  | .ok (proj, pre, nums, rs) =>
     -- 1. the oracle over the whole history (implementation's observations only)
     match oracleAll (OSt.init proj pre) [] rs 0 with
     | some m => .viol m
@@ -535,13 +550,14 @@ def runLine (ts : List String) : Verdict :=
         else
           let t := match op with
             | .pub counts =>
-              if counts.all (· == 0) then ["publish-empty"]
+              if (match iop with | .m => true | _ => false) then ["map-change"]
+              else if counts.all (· == 0) then ["publish-empty"]
               else if (keysOf files').any (fun key => stored files' key != stored implFiles key) then
                 ["stored"] ++ (if res.ws.off && !res.ws.l22 && !res.ws.l3 then ["stored-off-only"] else [])
               else ["withheld"] ++ (if res.ws.active && res.ws.paused then ["withheld-paused"] else [])
                     ++ (if !res.ws.active then ["withheld-inactive"] else [])
             | _ => opTag op res.err
           go s' files' rest' (k + 1) (tags ++ t)
-    go (St.init proj pre) [] rs 0 []
+    go (St.init proj pre nums) [] rs 0 []
 
 end DastardV.C06
